@@ -179,6 +179,10 @@ func main() {
 			}
 			seen[f] = true
 			for g := range ex.callsOf[f] {
+				// g's contract is applied in f's proof: everything it promises has to be discharged in this run,
+				// also when g carries obligations of this property itself (seed C13-52: the handler limit that
+				// AddRoute relies on was a clause of appendGroupInfo tagged for two other properties only)
+				depFns[g] = true
 				if !seen[g] {
 					work = append(work, g)
 				}
@@ -220,7 +224,11 @@ func main() {
 		timeoutS = 60
 	}
 	tmp, _ := os.MkdirTemp("", "ruxvc")
-	defer os.RemoveAll(tmp)
+	if os.Getenv("RUXVC_KEEP") == "" {
+		defer os.RemoveAll(tmp)
+	} else {
+		fmt.Println("solver files kept in", tmp)
+	}
 	ts := time.Now()
 	ex.solveAll(sel, tmp, timeoutS, thorough, *workers)
 	// second chance for undecided obligations (machine load must not turn into an alarm): one retry with
